@@ -77,6 +77,7 @@ class Run:
         self.unit_hashes = {}
         self.src_dirs = {}
         self.children = set()
+        self.partial = False      # --only runs do not overwrite the committed evidence file
         for sig in (signal.SIGTERM, signal.SIGINT, signal.SIGHUP):
             try:
                 signal.signal(sig, self._on_signal)
@@ -465,8 +466,9 @@ class Run:
             'wall_s': round(time.time() - self.t0, 1),
             'violations': len(self.violations),
         }
-        os.makedirs(os.path.join(VERIF, 'evidence'), exist_ok=True)
-        with open(os.path.join(VERIF, 'evidence', self.prop + '.json'), 'w') as f:
+        evdir = os.path.join(VERIF, 'evidence') if not self.partial else os.path.join(VERIF, '.work', 'evidence-partial')
+        os.makedirs(evdir, exist_ok=True)
+        with open(os.path.join(evdir, self.prop + '.json'), 'w') as f:
             json.dump(ev, f, indent=1)
         return ev
 
